@@ -168,6 +168,10 @@ def make_stub(contract):
                     if ci:
                         mods.extend(list(ci.fields) + list(ci.ghost))
             for f in mods:
+                if isinstance(f, tuple) and len(f) == 3 and f[0] == "*":
+                    # ("*", ClassName, field): the callee may write that field of ANY object of the class
+                    c.heap.havoc(keys=[(f[1], f[2])])
+                    continue
                 tgt, fname = (selfv, f) if isinstance(f, str) else (f[0](s), f[1])
                 owner, ty = REG.field(tgt._cls, fname)
                 arr = c.heap.array((owner, fname), ty)
@@ -334,14 +338,23 @@ def run_path(contract, c, state):
     s._seg = s._old
     c.pre_state = s._old
     # ---- run
-    call_args = list(args.values())
+    call_args, call_kw = [], {}
+    try:
+        kwonly = {p.name for p in inspect.signature(f).parameters.values() if p.kind == p.KEYWORD_ONLY}
+    except (TypeError, ValueError):
+        kwonly = set()
+    for an, av in args.items():
+        if an in kwonly:
+            call_kw[an] = av
+        else:
+            call_args.append(av)
     exc = None
     result = None
     try:
         if selfv is not None:
-            result = f(selfv, *call_args)
+            result = f(selfv, *call_args, **call_kw)
         else:
-            result = f(*call_args)
+            result = f(*call_args, **call_kw)
         if inspect.isgenerator(result):
             if contract.yields is None:
                 raise SpecError(f"{contract.qualname} is a generator; contract needs yields=")
